@@ -9,6 +9,7 @@ lib.setup_repo_path()
 for prop in sys.argv[1:]:
     P = importlib.import_module('props.' + prop.lower())
     if hasattr(P, 'extract'):
+        text = P.extract(lib.REPO)        # outside the lock: an extract() may take the lock itself
         with lib.Lock(os.path.join(lib.LEAN, '.build.lock')):
-            changed = lib.write_if_changed(os.path.join(lib.LEAN, 'NdnGen', f'{prop}.lean'), P.extract(lib.REPO))
+            changed = lib.write_if_changed(os.path.join(lib.LEAN, 'NdnGen', f'{prop}.lean'), text)
         print(prop, 'regenerated', '(changed)' if changed else '(unchanged)')
